@@ -194,6 +194,8 @@ def create_junction(net, pn_bar, tfluid_k, height_m=0, name=None, index=None, in
     add_new_component(net, Junction)
 
     index = _get_index_with_check(net, "junction", index)
+    if geodata is not None and len(geodata) != 2:
+        raise UserWarning("geodata must be given as (x, y) tuple")
 
     cols = ["name", "pn_bar", "tfluid_k", "height_m", "in_service", "type"]
     vals = [name, pn_bar, tfluid_k, height_m, bool(in_service), type]
@@ -201,8 +203,6 @@ def create_junction(net, pn_bar, tfluid_k, height_m=0, name=None, index=None, in
     _set_entries(net, "junction", index, **dict(zip(cols, vals)), **kwargs)
 
     if geodata is not None:
-        if len(geodata) != 2:
-            raise UserWarning("geodata must be given as (x, y) tuple")
         net["junction_geodata"].loc[index, ["x", "y"]] = geodata
 
     return index
